@@ -603,6 +603,83 @@ theorem challenged_are_four_nearest (table : List Peer) (hid : ∀ p ∈ table, 
     simp only [List.length_cons, List.length_take] at hlen ⊢
     omega
 
+/-! ## Replication candidates over the nearest-first K list -/
+
+/-- `get_replicate_candidates`' selection on the K closest local peers, nearest first (`closestK` ascending, as
+`get_closest_local_peers` delivers them): the answer is in ascending distance and a sub-list of the K list; with at least
+`CLOSE_GROUP_SIZE` peers in range it is EXACTLY the peers within the range (nobody in range is left out, nobody beyond it
+is taken); otherwise it is the `CLOSE_GROUP_SIZE` nearest, and every peer left out is at least as far as every one taken. -/
+theorem replicate_candidates_nearest (closestK : List Peer) (hsorted : closestK.Pairwise (fun a b => a.2 ≤ b.2))
+    (range : Option Nat) :
+    (replicateCandidates closestK range).Pairwise (fun a b => a.2 ≤ b.2) ∧
+    (replicateCandidates closestK range).Sublist closestK ∧
+    ((∃ r, range = some r ∧ closeGroupSize ≤ (replicateCandidates closestK range).length ∧
+        ∀ x, x ∈ replicateCandidates closestK range ↔ x ∈ closestK ∧ x.2 ≤ r) ∨
+     (replicateCandidates closestK range = closestK.take closeGroupSize ∧
+        ∀ x ∈ closestK.take closeGroupSize, ∀ y ∈ closestK.drop closeGroupSize, x.2 ≤ y.2)) := by
+  have htake : ∀ x ∈ closestK.take closeGroupSize, ∀ y ∈ closestK.drop closeGroupSize, x.2 ≤ y.2 := by
+    intro x hx y hy
+    have hs := hsorted
+    rw [← List.take_append_drop closeGroupSize closestK, List.pairwise_append] at hs
+    exact hs.2.2 x hx y hy
+  cases range with
+  | none =>
+    exact ⟨hsorted.sublist (List.take_sublist _ _), List.take_sublist _ _, Or.inr ⟨rfl, htake⟩⟩
+  | some r =>
+    by_cases hlen : (getPeersInRange closestK r).length ≥ closeGroupSize
+    · have heq : replicateCandidates closestK (some r) = getPeersInRange closestK r := by
+        simp only [replicateCandidates, hlen, ↓reduceIte]
+      rw [heq]
+      exact ⟨hsorted.sublist (inRange_is_filter closestK r).2, (inRange_is_filter closestK r).2,
+        Or.inl ⟨r, rfl, hlen, (inRange_is_filter closestK r).1⟩⟩
+    · have heq : replicateCandidates closestK (some r) = closestK.take closeGroupSize := by
+        simp only [replicateCandidates, hlen, ↓reduceIte]
+      rw [heq]
+      exact ⟨hsorted.sublist (List.take_sublist _ _), List.take_sublist _ _, Or.inr ⟨rfl, htake⟩⟩
+
+/-! ## The three range tests disagree at the boundary (observation, no clause of C11 is violated) -/
+
+/-- the replication fetcher admits an advertised key at distance `d` when `d ≤ range` (`Gen.Fetcher.rangeOk`) -/
+def fetcherAdmits (d r : Nat) : Bool := SafeNet.Gen.Fetcher.rangeOk d r
+/-- the record store counts a record as in range (`get_records_within_distance_range`: `..range`) -/
+def storeCountsInRange (d r : Nat) : Bool :=
+  if SafeNet.Gen.Store.withinRangeExclusive then decide (d < r) else decide (d ≤ r)
+/-- `cleanup_irrelevant_records` removes `range..` -/
+def cleanupRemoves (d r : Nat) : Bool :=
+  if SafeNet.Gen.Store.cleanupFromInclusive then decide (r ≤ d) else decide (r < d)
+
+/-- A record at EXACTLY the responsible distance is fetched (≤), not counted as in range (<) and removed by the clean-up
+(≥) — and then fetched again when it is advertised. Each test orders by the XOR integer; they just cut at different
+sides of the one value `range` (probability 2^-256 per record with honest keys). -/
+theorem boundary_record_churns_witness (r : Nat) :
+    fetcherAdmits r r = true ∧ storeCountsInRange r r = false ∧ cleanupRemoves r r = true := by
+  simp [fetcherAdmits, storeCountsInRange, cleanupRemoves, SafeNet.Gen.Fetcher.rangeOk, SafeNet.Gen.Store.withinRangeExclusive,
+    SafeNet.Gen.Store.cleanupFromInclusive]
+
+/-- everywhere else the three tests agree: admitted = counted = not removed -/
+theorem range_tests_agree_off_boundary (d r : Nat) (h : d ≠ r) :
+    fetcherAdmits d r = storeCountsInRange d r ∧ cleanupRemoves d r = !fetcherAdmits d r := by
+  simp only [fetcherAdmits, storeCountsInRange, cleanupRemoves, SafeNet.Gen.Fetcher.rangeOk, SafeNet.Gen.Store.withinRangeExclusive,
+    SafeNet.Gen.Store.cleanupFromInclusive, ↓reduceIte]
+  constructor
+  · by_cases h1 : d ≤ r
+    · have : d < r := by omega
+      simp [h1, this]
+    · have : ¬ d < r := by omega
+      simp [h1, this]
+  · by_cases h1 : d ≤ r
+    · have : ¬ r ≤ d := by omega
+      simp [h1, this]
+    · have : r ≤ d := by omega
+      simp [h1, this]
+
+/-- "Zero only for equal addresses" is about the address BYTES (`dist_eq_zero_iff`): two DIFFERENT typed addresses with
+the same bytes — a chunk address and a transaction address (or the raw record key) of one xorname — are at distance 0. -/
+theorem distinct_kinds_same_bytes_distance_zero (x : List Nat) :
+    dist H { kind := .chunk, raw := [], xorname := x } { kind := .transaction, raw := [], xorname := x } = 0 ∧
+    dist H { kind := .chunk, raw := [], xorname := x } { kind := .recordKey, raw := x, xorname := [] } = 0 := by
+  constructor <;> exact Nat.xor_self _
+
 /-! ## The record store's closeness decisions on records (distance index, farthest record) -/
 
 /-- "Selecting … records within a range": after every history and schedule of the record store (restarts included) the
@@ -693,5 +770,9 @@ end SafeNet.Props.C11
 #print axioms SafeNet.Props.C11.closest_range_preferred
 #print axioms SafeNet.Props.C11.closest_num_sorted_prefix
 #print axioms SafeNet.Props.C11.replicate_candidates_spec
+#print axioms SafeNet.Props.C11.replicate_candidates_nearest
+#print axioms SafeNet.Props.C11.boundary_record_churns_witness
+#print axioms SafeNet.Props.C11.range_tests_agree_off_boundary
+#print axioms SafeNet.Props.C11.distinct_kinds_same_bytes_distance_zero
 #print axioms SafeNet.Props.C11.client_close_group_spec
 #print axioms SafeNet.Props.C11.node_close_group_spec
